@@ -163,3 +163,54 @@ void h_close_event(void)
     VERIF_CANARY;
 }
 #endif
+
+/* ------------------------------------------------------------------------------------------------
+ * Head of generateXConstraints / generateYConstraints: each variable's desired position is set to its rectangle's current
+ * centre -- for EVERY rectangle, in EVERY call (also for 0 or 1 rectangles).  removeoverlaps creates the variables at 0 and
+ * gives fixed rectangles weight 10000; "fixed rectangles move by a negligible amount" rests on this assignment. */
+struct PACKED vec9 { void *d; size_t n; size_t cap; };
+#define V9(p) ((struct vec9 *)(p))
+#if defined(JOB_head_shell)
+unsigned long verif_visited;
+extern void *verif_g_rs, *verif_g_vars;
+void w_head_visit(void *ri, void *vi, unsigned long i)
+#if defined(HEAD_X)
+__CPROVER_requires(i == verif_visited)                         /* indices in order, none skipped */
+#else
+__CPROVER_requires(ri == (void *)((void **)V9(verif_g_rs)->d + verif_visited) && vi == (void *)((void **)V9(verif_g_vars)->d + verif_visited))
+#endif
+__CPROVER_ensures(verif_visited == __CPROVER_old(verif_visited) + 1)
+__CPROVER_assigns(verif_visited)
+;
+void w_head(void *rs, void *vars)
+__CPROVER_requires(__CPROVER_is_fresh(rs, sizeof(struct vec9)) && __CPROVER_is_fresh(vars, sizeof(struct vec9)) && V9(rs)->n <= 1000000 && V9(vars)->n <= 1000000)
+__CPROVER_requires(V9(vars)->n >= V9(rs)->n && verif_visited == 0)      /* the function's own COLA_ASSERT */
+__CPROVER_requires(__CPROVER_is_fresh(V9(rs)->d, V9(rs)->n * sizeof(void *)) && __CPROVER_is_fresh(V9(vars)->d, V9(vars)->n * sizeof(void *)))
+__CPROVER_ensures(verif_visited == V9(rs)->n)
+__CPROVER_assigns(verif_visited, verif_g_rs, verif_g_vars)
+;
+void h_head(void) { void *rs, *vars; w_head(rs, vars); VERIF_CANARY; }
+#endif
+#if defined(JOB_head_body)
+double __CPROVER_uninterpreted_centre(void *, int);
+static unsigned long long bits9(double d) { union { double d; unsigned long long u; } c; c.d = d; return c.u; }
+double w_centre(void *r, int dim)
+__CPROVER_requires(1)
+__CPROVER_ensures(bits9(__CPROVER_return_value) == bits9(__CPROVER_uninterpreted_centre(r, dim)))
+__CPROVER_assigns()
+;
+#if defined(HEAD_X)
+#define HDIM 0
+#else
+#define HDIM 1
+#endif
+struct PACKED Var9 { int id; double desiredPosition; };
+void w_head_body(void *rs, void *vars, unsigned long i)
+__CPROVER_requires(__CPROVER_is_fresh(rs, sizeof(struct vec9)) && __CPROVER_is_fresh(vars, sizeof(struct vec9)) && V9(rs)->n <= 1000000 && V9(vars)->n <= 1000000)
+__CPROVER_requires(__CPROVER_is_fresh(V9(rs)->d, V9(rs)->n * sizeof(void *)) && __CPROVER_is_fresh(V9(vars)->d, V9(vars)->n * sizeof(void *)))
+__CPROVER_requires(i < V9(rs)->n && i < V9(vars)->n && __CPROVER_is_fresh(((void **)V9(vars)->d)[i], 128))
+__CPROVER_ensures(bits9(((struct Var9 *)((void **)V9(vars)->d)[i])->desiredPosition) == bits9(__CPROVER_uninterpreted_centre(((void **)V9(rs)->d)[i], HDIM)))
+__CPROVER_assigns(((struct Var9 *)((void **)V9(vars)->d)[i])->desiredPosition)
+;
+void h_head_body(void) { void *rs, *vars; unsigned long i; w_head_body(rs, vars, i); VERIF_CANARY; }
+#endif
